@@ -153,7 +153,7 @@ def renumber(events):
     return events
 
 
-def validate(events, workdir, tag, spec="Trace", heap="8g", timeout=1800):
+def validate(events, workdir, tag, spec="Trace", heap="8g", timeout=10800):
     """run TLC trace validation; returns (summary, verdicts). raises on tool failure"""
     ensure_java()
     os.makedirs(workdir, exist_ok=True)
